@@ -246,19 +246,29 @@ where
 
 /-! ### parser + model -/
 
+/-- `ChoiceExtractDataResult.__init__(self, source='', score=0.0, other_matches=[])` — the two fields the parser reads -/
+structure EDR (α : Type) where
+  source : α
+  score : Score := Score.zero
+
+/-- `ChoiceParser.parse`: `data = ChoiceExtractDataResult(ext_result.data)` builds a NEW object with the extractor's
+data object as its `source` argument, so `data.score` is the constructor's default — NOT the extractor's score
+(`e.score`) — and `result.data = ChoiceParseDataResult(data.score, …)` carries that on to `get_resolution`. -/
+def parserScore (e : ER) : Score := ({ source := e.score } : EDR Score).score
+
 structure MR where
   start : Nat
   stop : Int           -- `o.start + len(o.text) - 1`
   text : Str
   value : Bool
-  scoreZero : Bool     -- the reported score is the default 0.0 (see the header)
+  score : Score        -- `resolution['score']`
 deriving Repr, DecidableEq, Inhabited
 
 /-- `recognize_boolean`: `BooleanModel.parse` ∘ `BooleanParser.parse` ∘ `BooleanExtractor.extract`.
 `none` = an exception escapes (before /repo 74161fefc `parse_results` was unbound when the `try` block raised). -/
 def recognise (E : Env) (q : Str) : Option (List MR) :=
   match extract E q with
-  | some ers => some (ers.map fun e => ⟨e.start, (e.start : Int) + e.text.length - 1, e.text, e.value, true⟩)
+  | some ers => some (ers.map fun e => ⟨e.start, (e.start : Int) + e.text.length - 1, e.text, e.value, parserScore e⟩)
   | none => if E.parseInit then some [] else none
 
 end RTV.Choice
